@@ -16,7 +16,7 @@ Modelled as coded:
   * `mj_actuatorDisabled` (group in 0..30 and its bit set in opt.disableactuator): the force stays 0;
   * the tendon total-force limit (forces of the actuators on a force-limited tendon rescaled so that their sum
     meets the violated bound);
-  * the forcerange clamp;
+  * the forcerange clamp, skipped for actuators of disabled groups (`if (mj_actuatorDisabled(m, i)) continue;`);
   * `qfrc_actuator = moment' * force` as `mju_mulMatTVecSparse` computes it (rows with a zero force skipped,
     `res[colind] += value * force` in storage order);
   * the addition of `qfrc_gravcomp` on joints with actgravcomp and the joint-level clamp
@@ -141,6 +141,11 @@ def sumList : List α → α
 
 /-- `if (forcelimited) f = mju_clip(f, range[0], range[1])` -/
 def clampForce (limited : Bool) (f lo hi : α) : α := clampEntry limited f lo hi
+
+/-- the "clamp actuator_force" loop of one SISO actuator: nothing happens unless force-limited, nothing happens
+    for an actuator of a disabled group, otherwise the forcerange clamp -/
+def clampStage (limited : Bool) (group : Int) (disableactuator : Nat) (f lo hi : α) : α :=
+  if actuatorDisabled group disableactuator then f else clampForce limited f lo hi
 
 /-! ### qfrc_actuator = moment' * force -/
 
